@@ -12,6 +12,13 @@ Cases (harness/src/bin/serde, runtime-typed `dynserde`; `fidelity <n>` self-chec
                               toml::ser::ValueSerializer); `ok:=` means identical to the input value.
   tryfrom <type> <value>      val = Value::try_from(v), txt = from_str::<Value>(to_string(v)), tab = Table::try_from(v),
                               ttxt = to_string(v).parse::<Table>() as canonical (key-sorted) tree dumps.
+  slice <type> <bytes>        toml_edit::de::from_slice on ANY byte string (fixed cases: ill-formed UTF-8 in every position and
+                              form, next to well-formed texts): utf8= (std's verdict), valid= (the parser's), esl=ok:<dump>|utf8err|err.
+
+TEXT-LEVEL MODEL (Proofs/C13TextModel.v `run_route`, Props/C13text.v): the model's answer to a `routes` case carries, after
+the tree-level routes, `T.<route>=ok:<value>|parse|de|unmodelled` for the eight document routes evaluated ON THE TEXT (Coq
+parser, into_mut, the route functions; the float oracle read off the tree the text was rendered from); `compare` holds them
+against the implementation's per-route results (err = parse when the harness says valid=0, de when valid=1).
 
 ORACLE (implementation line only; equality = gen_serde.sval_eq / tv_eq):
   * routes      all routes that succeed return equal values; when the document was rendered (by this module, in a
@@ -70,8 +77,8 @@ RULE = ("(type, document) pairs: documents rendered from a random value of the t
 ASSUMPTIONS = [
     "serde_derive / serde's std impls are written into coq/Model/Ser.v, De.v as their functional spec; the same protocol is `dynserde`, checked on every run against real derived types (command `fidelity`)",
     "python-rendered documents are TOML 1.0 by construction (the harness reports `valid=`; an invalid rendering is a generator bug and fails the check)",
-    "the text-level theorems (Props/C13text.v) speak about Model/FrontEnds-style route functions of the byte string; the correspondence cases still feed the model the tree the texts were rendered from, and the route functions are compared with the crates through the front-end commands of the core driver (C01/C02 checks); that the model's printed bytes are valid UTF-8 is a hypothesis for the byte routes on serialized text (in Rust the text is a String)",
-    "the model reads the tree the texts were rendered from (fourth argument of a `routes` case), not the texts",
+    "the text-level route functions of Props/C13text.v (Proofs/C13TextModel.v run_route) are evaluated by the extracted driver on the TEXT of every `routes` case (Coq parser, into_mut, the eight routes) and compared per route with the crates (value, parse / deserialize error by the harness's valid= flag); the float oracle `back` is read off the tree the text was rendered from (the floats of the parsed text, in order, paired with the f64 patterns of that tree); from_slice is also run on fixed ill-formed byte strings (command `slice`); that the model's printed bytes are valid UTF-8 stays a hypothesis for the byte routes on serialized text (in Rust the text is a String)",
+    "the tree-level model still reads the tree the texts were rendered from (fourth argument of a `routes` case); `routes_ser` cases are tied on the tree level only",
     "the Coq universe has no untyped toml::Value leaf (cases with it: oracle only); has_type as in C07",
     "the duplicate-key family (a key repeated in one serialized map) is outside has_type: judged by the oracle and tied to the model, no theorem speaks about it",
 ]
@@ -236,6 +243,14 @@ def fixed_cases(rng):
                     {"kind": "F14-witness", "ty": f14, "depth": 2, "has_dt": False, "root_table": True}))
     out.append(Case("routes", [G.ty_str(f14).encode(), b"[t]\n\"$__toml_private_datetime\" = \"x\"\n", b""],
                     {"kind": "F14-witness", "ty": f14, "depth": 2, "has_dt": False, "root_table": True}))
+    # the bytes route (toml_edit::de::from_slice) on byte strings that are no &str: ill-formed UTF-8 in a string, a key,
+    # a comment, at the end, alone; overlong / surrogate / beyond U+10FFFF encodings; truncated sequences — and well-formed
+    # texts (accepted, refused by the parser, refused by the deserializer) for contrast
+    mss = ("M", ("s",), ("s",))
+    for bs in (b'a = "\xff"\n', b'"\xff" = "x"\n', b"# \xff\n", b"a = \"x\"\n\x80", b"\xc3", b"\xc0\xaf", b"a = \"\xed\xa0\x80\"\n",
+               b"# \xf4\x90\x80\x80\n", b"a = \"\xe2\x82\"\n", b"\xef\xbb\xbfa = \"\xfe\"\n", b"a = '\xf0\x9f\x98'\n", b"a = \"\x80\"",
+               b'a = "x"\n', b'a = "\xc3\xa9"\n', b"\xef\xbb\xbfa = \"x\"\n", b"# \xf0\x9f\x98\x80\na = \"y\"\n", b"a = \n", b"a = 1\n", b""):
+        out.append(Case("slice", [G.ty_str(mss).encode(), bs], {"kind": "slice", "ty": mss, "depth": 2}))
     return out
 
 
@@ -376,6 +391,21 @@ def judge(case, line):
                     else:
                         out.append(("routes %s and %s both succeed with different values: %s" % (reference[0], r, dumps[r][:300]), c2))
         return out
+    if case.cmd == "slice":
+        # the bytes entry point validates UTF-8 first: ill-formed bytes are refused with the UTF-8 error, never parsed
+        try:
+            case.args[1].decode("utf-8")
+            wf = True
+        except UnicodeDecodeError:
+            wf = False
+        if f.get("utf8") != ("1" if wf else "0"):
+            out.append(("std::str::from_utf8 and python disagree on the well-formedness of %r" % case.args[1][:60], None))
+        if not wf and f.get("esl") != "utf8err":
+            out.append(("from_slice answers ill-formed UTF-8 with %s instead of its UTF-8 error" % f.get("esl"), None))
+        if wf and f.get("esl") == "utf8err":
+            out.append(("from_slice refuses well-formed UTF-8 as ill-formed", None))
+        STATS["slice:" + str(f.get("esl", ""))[:7]] += 1
+        return out
     if case.cmd == "tryfrom":
         v = case.meta["v"]
         private = G.mentions_private(ty, v)
@@ -457,6 +487,22 @@ def compare(case, model_line, impl_line):
     if impl_line.startswith("BADCASE") or model_line.startswith("BADCASE"):
         return None if impl_line.startswith("BADCASE") and model_line.startswith("BADCASE") else "model %s, implementation %s" % (model_line[:60], impl_line[:60])
     m, i = fields(model_line), fields(impl_line)
+    if case.cmd == "slice":
+        x, y = m.get("esl", ""), i.get("esl", "")
+        want = {"utf8": "utf8err", "parse": "err", "de": "err"}
+        if x == "unmodelled":
+            return None
+        STATS["cmp:slice"] += 1
+        if x.startswith("ok:"):
+            if not y.startswith("ok:") or not G.sval_eq(G.parse_val(x[3:]), G.parse_val(y[3:])):
+                return "from_slice: model %s, implementation %s" % (x[:200], y[:200])
+            return None
+        if want.get(x) != y or (x == "parse" and i.get("valid") != "0") or (x == "de" and i.get("valid") != "1"):
+            return "from_slice: model %s, implementation %s (utf8=%s valid=%s)" % (x[:100], y[:100], i.get("utf8"), i.get("valid"))
+        return None
+    # the text-level routes of the model (Proofs/C13TextModel.v run_route on the document TEXT): `T.<route>=...`
+    tm = collections.OrderedDict((k[2:], x) for k, x in m.items() if k.startswith("T."))
+    m = collections.OrderedDict((k, x) for k, x in m.items() if not (k.startswith("T.") or k == "T"))
     if case.cmd in ("routes", "routes_ser"):
         # resolve the implementation's `ok:=` (same dump as the reference: the input value / the first dump printed)
         ref = case.meta.get("v") if case.cmd == "routes_ser" else None
@@ -500,6 +546,29 @@ def compare(case, model_line, impl_line):
         for k in ival:
             if k not in m:
                 return "route %s: answered by the implementation but not by the model" % k
+        # text level: the same routes, evaluated by the model on the text itself
+        for k, x in tm.items():
+            if x == "unmodelled":
+                STATS["tcmp:unmodelled"] += 1
+                continue
+            if k not in ival:
+                return "text route %s: answered by the model (%s) but not by the implementation" % (k, x[:60])
+            y = ival[k]
+            if x.startswith("ok:"):
+                if y is None:
+                    return "text route %s: model %s, implementation err (valid=%s)" % (k, x[:200], i.get("valid"))
+                if y[1] is None or not G.sval_eq(G.parse_val(x[3:]), y[1]):
+                    return "text route %s: model %s, implementation %s" % (k, x[:200], i[k][:200])
+            elif x in ("parse", "de"):
+                if y is not None:
+                    return "text route %s: model %s, implementation %s" % (k, x, i[k][:200])
+                if i.get("valid") != ("0" if x == "parse" else "1"):
+                    return "text route %s: model %s, implementation err with valid=%s" % (k, x, i.get("valid"))
+            else:
+                return "text route %s: model %s, implementation %s" % (k, x[:60], i[k][:100])
+            STATS["tcmp:route"] += 1
+        if case.cmd == "routes" and not tm and "T" in fields(model_line):
+            STATS["tcmp:floats-not-aligned"] += 1
         return None
     if case.cmd == "tryfrom":
         iref = {"txt": "val", "ttxt": "tab"}
